@@ -1189,6 +1189,8 @@ pub struct VerifCGrammar {
     pub lhs_of: Vec<u32>,
     /// per symbol: (rule start pointers, is_nullable, lexeme, has sub-grammar, is_terminal)
     pub syms: Vec<(Vec<u32>, bool, Option<u32>, bool, bool)>,
+    /// indices of the skip (`%ignore`, JSON whitespace) lexemes
+    pub skips: Vec<u32>,
 }
 
 impl CGrammar {
@@ -1211,6 +1213,14 @@ impl CGrammar {
                         s.is_terminal,
                     )
                 })
+                .collect(),
+            skips: self
+                .lexer_spec
+                .lexemes
+                .iter()
+                .enumerate()
+                .filter(|(_, l)| l.is_skip)
+                .map(|(i, _)| i as u32)
                 .collect(),
         }
     }
